@@ -124,6 +124,10 @@ func (pres *Presence) UnmarshalXML(d *xml.Decoder, start xml.StartElement) error
 					err = d.DecodeElement(&pres.Priority, &tt)
 				case "error":
 					err = d.DecodeElement(&pres.Error, &tt)
+				default:
+					// Unknown child: skip it entirely, so that its own descendants (which may be
+					// named like this stanza) are not mistaken for ours.
+					err = d.Skip()
 				}
 				if err != nil {
 					return err
